@@ -201,6 +201,15 @@ func (e *engine) Generate(seed uint64, idx int, tier string, avoid []harness.Fin
 			c.Prog.Kids[i] = Node{K: "ignore", ID: g.nextID, Kids: []Node{c.Prog.Kids[i]}}
 		}
 	}
+	avoidKinds := map[string]bool{}
+	for _, f := range avoid {
+		if strings.HasPrefix(f.Trigger, "nontail:") {
+			avoidKinds[strings.TrimPrefix(f.Trigger, "nontail:")] = true
+		}
+	}
+	if len(avoidKinds) > 0 {
+		sanitize(&c.Prog, nil, map[string]bool{}, avoidKinds)
+	}
 	c.Policy = []string{sched.PolicyRandom, sched.PolicyRandom, sched.PolicyPCT, sched.PolicyRTB, sched.PolicyRR}[r.Intn(5)]
 	c.SwitchPct = []int{5, 20, 50, 90}[r.Intn(4)]
 	c.YieldPct = []int{0, 5, 25}[r.Intn(3)]
@@ -256,7 +265,9 @@ func (n *Node) render(dir string, b *strings.Builder) {
 	case "lambda":
 		fmt.Fprintf(b, "(funcall (lambda (a%d) %s) %d)", n.ID, all(), n.ID)
 	case "block":
-		fmt.Fprintf(b, "(block %s %s)", n.Name, all())
+		// the value is kept in a variable so that a marker can tell when the
+		// block has ended, whichever way it ended
+		fmt.Fprintf(b, "(let ((bv%d (block %s %s))) (sim-emit \"bend\" \"%s\") bv%d)", n.ID, n.Name, all(), n.Name, n.ID)
 	case "tagbody":
 		b.WriteString("(tagbody ")
 		for i := range n.Kids {
@@ -497,6 +508,7 @@ func (c *Case) judge(out runOut, f *Fault) *harness.Violation {
 	}
 	// I1 + I2: stack discipline of enter/cleanup markers of task 0
 	var stack []string
+	pendingRet := "" // a return-from to this block is on its way
 	inCS := map[string]bool{}
 	lastSignal := ""
 	wrote := map[string]int{}
@@ -509,7 +521,27 @@ func (c *Case) judge(out runOut, f *Fault) *harness.Violation {
 			}
 			continue
 		}
+		if pendingRet != "" {
+			// Exit transfer (first sentence of C07): between a return-from and
+			// the end of its block only cleanups may run.
+			switch fs[0] {
+			case "cleanup", "cs-leave":
+			case "bend":
+				if fs[1] == pendingRet {
+					pendingRet = ""
+				}
+			case "signal", "interrupt":
+				pendingRet = "" // an error took over
+			default:
+				return viol("exit-not-taken", "%s: after (return-from %s ...) control went on inside the block: %q was reached before the block ended; trace: %s",
+					what, pendingRet, m.text, trace(out.marks))
+			}
+		}
 		switch fs[0] {
+		case "leaf":
+			if len(fs) == 3 && fs[1] == "ret" {
+				pendingRet = fs[2]
+			}
 		case "interrupt":
 			interrupted = true
 		case "enter":
@@ -780,6 +812,11 @@ func (e *engine) Matches(raw json.RawMessage, v *harness.Violation, f harness.Fi
 	if f.Trigger == "" {
 		return true
 	}
+	if strings.HasPrefix(f.Trigger, "nontail:") {
+		got := map[string]bool{}
+		nonTailCrossings(&c.Prog, nil, map[string][]string{}, got)
+		return got[strings.TrimPrefix(f.Trigger, "nontail:")]
+	}
 	if strings.HasPrefix(f.Trigger, "node:") {
 		return hasKind(&c.Prog, strings.TrimPrefix(f.Trigger, "node:"))
 	}
@@ -787,4 +824,79 @@ func (e *engine) Matches(raw json.RawMessage, v *harness.Violation, f harness.Fi
 		return c.Fault != nil && c.Fault.Kind == strings.TrimPrefix(f.Trigger, "fault:")
 	}
 	return false
+}
+
+// exitBlockers are the form kinds (as rendered) whose Lisp form evaluates a
+// body; nonTailCrossings reports under which of them some return-from leaf
+// sits in a non-final position while its target block lies outside the form.
+func nonTailCrossings(n *Node, visible []string, crossing map[string][]string, out map[string]bool) {
+	// crossing[blockName] = kinds of forms the exit would cross in non-tail position
+	switch n.K {
+	case "ret":
+		for _, k := range crossing[n.Name] {
+			out[k] = true
+		}
+		return
+	}
+	for i := range n.Kids {
+		vis := visible
+		cr := crossing
+		if n.K == "block" {
+			vis = append(append([]string{}, visible...), n.Name)
+		}
+		last := i == len(n.Kids)-1
+		kind := n.K
+		// how the kids of this kind are rendered: inside which body form
+		nonTail := !last
+		switch n.K {
+		case "uwp", "lock":
+			// (progn <marker> kids...) inside the protected form; for lock an
+			// unwind-protect inside with-mutex-lock
+			nonTail = !last
+		case "file":
+			nonTail = true // a write follows the kids
+		case "tagbody":
+			nonTail = true // tagbody returns nil: it swallows an exit in any position
+		}
+		if nonTail && n.K != "block" {
+			cr = map[string][]string{}
+			for k, v := range crossing {
+				cr[k] = v
+			}
+			for _, b := range visible {
+				cr[b] = append(append([]string{}, cr[b]...), kind)
+			}
+		}
+		nonTailCrossings(&n.Kids[i], vis, cr, out)
+	}
+}
+
+// sanitize replaces return-from leaves that would cross one of the given
+// form kinds in non-tail position by plain values.
+func sanitize(n *Node, visible []string, unsafe map[string]bool, kinds map[string]bool) {
+	if n.K == "ret" {
+		if unsafe[n.Name] {
+			*n = Node{K: "val"}
+		}
+		return
+	}
+	for i := range n.Kids {
+		vis := visible
+		us := unsafe
+		if n.K == "block" {
+			vis = append(append([]string{}, visible...), n.Name)
+		}
+		last := i == len(n.Kids)-1
+		nonTail := !last || n.K == "file" || n.K == "tagbody"
+		if nonTail && n.K != "block" && kinds[n.K] {
+			us = map[string]bool{}
+			for k := range unsafe {
+				us[k] = true
+			}
+			for _, b := range visible {
+				us[b] = true
+			}
+		}
+		sanitize(&n.Kids[i], vis, us, kinds)
+	}
 }
